@@ -121,6 +121,9 @@ func anyWidth(r *vh.Rng, v uint64, alt bool) int {
 	return ok[r.Intn(len(ok))]
 }
 
+// refForceChunked makes RefEnc write every byte / text string in the indefinite-length (chunked) form.
+var refForceChunked bool
+
 // RefEnc serialises an item choosing among the alternative forms the RFC permits.
 // F32 items are written as single precision; F64 as half/single/double when exact.
 func RefEnc(r *vh.Rng, it *Item, alt bool, stats map[string]int) []byte {
@@ -189,7 +192,7 @@ func RefEnc(r *vh.Rng, it *Item, alt bool, stats map[string]int) []byte {
 		if it.K == KBytes {
 			major = 2
 		}
-		if alt && r.Chance(1, 3) {
+		if refForceChunked || (alt && r.Chance(1, 3)) {
 			stats["form.indef-string"]++
 			out := []byte{major<<5 | 31}
 			s := it.S
